@@ -1,5 +1,6 @@
 // C07 - coroutine mutex: mutual exclusion and exactly-once grant
 #include <scn/mutex.h>
+#include <scn/scheduling.h>
 int main(int argc, char **argv) {
     vf::opts o(argc, argv);
     vf::install_crash_handler();
@@ -35,6 +36,15 @@ int main(int argc, char **argv) {
         vf::g_active_report = &R;
         vf::team T(1, o, true);
         scn::mutex_callback_parties(o, R, o.cases);
+        T.export_hits(R);
+        R.write();
+        vf::g_active_report = nullptr;
+    }
+    if (o.want("bare_coroutine_programs")) { // "each coroutine waiting for the lock is resumed exactly once" when the releaser is a foreign coroutine (no ready queue)
+        vf::report R("C07", "bare_coroutine_programs", o);
+        vf::g_active_report = &R;
+        vf::team T(1, o, true);
+        scn::bare_coroutine_programs(o, R, o.cases);
         T.export_hits(R);
         R.write();
         vf::g_active_report = nullptr;
